@@ -304,3 +304,32 @@ for _kind, _ns in [('And', (1, 2, 3)), ('Or', (1, 2, 3)), ('When', (1,))]:
         for _info in (False, True, 'self', 'not'):
             contract('C10/%s/n=%d,info=%s' % (_kind, _n, _info), ['C10'], T + ('Or.__call__' if _kind == 'Or' else 'When.__call__'))(
                 lambda h, k=_kind, n=_n, i=_info: _compound(h, k, n, i))
+
+
+@contract('C10/TimeLimits', ['C10'], T + 'TimeLimits', native=False)
+def time_limits(h):
+    """TimeLimits(seconds, system): satisfied exactly when (reading of ITS clock now) - (reading at creation, or at the last
+    reset()) >= seconds -- for every behaviour of a monotone clock; reset() restarts the count; info gives the doc or ''"""
+    if not h.is_sym():
+        h.unsupported('symbolic only (abstract clock)')
+    system = h.choice('system', [None, True, False])
+    clock = {None: 'time.time', True: 'time.perf_counter', False: 'time.process_time'}[system]
+    secs = h.real('seconds')
+    resets = h.choice('resets_before_evaluation', [0, 1, 2])
+    info = h.choice('info', [False, True])
+    c = h.call(h.get(T + 'TimeLimits'), secs, system)
+    for _ in range(resets):
+        h.call(h.getattr(c, 'reset'))
+    r = h.call(c, _inst(h), info)
+    readings = list(h.st.ghost.get('clock:' + clock, []))
+    h.check('one-clock-reading-per-creation-reset-and-evaluation-all-from-the-chosen-clock', 'ok',
+            ok=(len(readings) == resets + 2 and all(not h.st.ghost.get('clock:' + o) for o in ('time.time', 'time.perf_counter', 'time.process_time') if o != clock)))
+    if len(readings) != resets + 2:
+        return
+    start, now = readings[-2], readings[-1]
+    want = 'now - start >= (secs if secs >= 0 else -secs)'
+    h.check('satisfied-iff-elapsed-since-creation-or-last-reset-reaches-the-limit', 'iff(truthy(r), %s)' % want, r=r, now=now, start=start, secs=secs)
+    if info:
+        h.check('info-is-doc-or-empty', '(r == "") == (not (%s))' % want if False else 'iff(r == "", not (%s))' % want, r=r, now=now, start=start, secs=secs)
+    else:
+        h.check('result-is-bool', 'r is True or r is False', r=r)
